@@ -68,6 +68,11 @@ fn alphabet() -> Vec<Vec<u8>> {
         format!("AUTH EXTERNAL {other}"),
         format!("AUTH EXTERNAL {nonnum}"),
         "AUTH EXTERNAL 313".into(), // odd number of hex digits
+        // identities that only resemble the peer's: the uid is a proper prefix of the claim, the
+        // claim a proper prefix of the uid, the uid followed by a space
+        format!("AUTH EXTERNAL {}", hex_of(&format!("{UID}1"))),
+        format!("AUTH EXTERNAL {}", hex_of(&UID.to_string()[..3])),
+        format!("AUTH EXTERNAL {}", hex_of(&format!("{UID} "))),
         "AUTH ANONYMOUS".into(),
         format!("AUTH ANONYMOUS {}", hex_of("zbus")),
         "AUTH FOO".into(),
@@ -80,6 +85,7 @@ fn alphabet() -> Vec<Vec<u8>> {
         "ERROR x".into(),
         "NEGOTIATE_UNIX_FD".into(),
         "FOO".into(),
+        "begin".into(), // commands are case-sensitive
         "".into(),
     ]
     .into_iter()
